@@ -80,6 +80,12 @@ pub enum GOp {
     /// possibly as the other coset representative (witness / input allocation returns the decoded
     /// point, a constant keeps the point it was given)
     Realloc { dst: u8, a: u8, mode: Mode, via: Via },
+    /// a lazily decoded variable from an arbitrary field value (AllocVar<Fq>): nothing is
+    /// constrained until it is used. If the value is not a valid encoding the register is
+    /// *poisoned*: the first gadget that consumes it must leave the system unsatisfied
+    AllocLazy { dst: u8, val: Num, mode: Mode },
+    /// CurveVar::is_zero
+    IsZero { a: u8 },
     Compress { dst: u8, e: u8 },
     Decompress { dst: u8, f: u8 },
     Elligator { dst: u8, f: u8 },
@@ -114,6 +120,7 @@ impl GOp {
             GOp::AllocElem { mode, via, .. } => format!("AllocElem:{mode:?}:{via:?}"),
             GOp::AllocFq { mode, .. } => format!("AllocFq:{mode:?}"),
             GOp::Realloc { mode, .. } => format!("Realloc:{mode:?}"),
+            GOp::AllocLazy { mode, .. } => format!("AllocLazy:{mode:?}"),
             GOp::Bin { form, .. } => format!("Bin:{form:?}"),
             GOp::BinConst { form, .. } => format!("BinConst:{form:?}"),
             GOp::ScalarMul { bits_const, .. } => format!("ScalarMul:{}", if *bits_const { "const-bits" } else { "witness-bits" }),
@@ -133,6 +140,9 @@ pub struct EReg {
     pub var: ElementVar,
     pub native: AE,
     pub is_const: bool,
+    /// allocated from a field value that is *not* a valid encoding (native decoding fails):
+    /// `native` is a placeholder; consuming the variable must make the system unsatisfiable
+    pub poisoned: bool,
 }
 pub struct FReg {
     pub var: FqVar,
@@ -160,6 +170,8 @@ pub struct Machine {
     /// booleans produced by gadgets together with their native values
     pub bools: Vec<(String, Boolean<Fq>, bool)>,
     pub steps_done: usize,
+    /// set while a step consumes a poisoned register: value comparisons are meaningless then
+    suppress: std::cell::Cell<bool>,
 }
 
 pub enum StepOut {
@@ -203,7 +215,7 @@ pub fn elem_eq_exact(got: &AE, want: &AE) -> Result<(), String> {
 
 impl Machine {
     pub fn new(run: Run, setup: bool) -> Machine {
-        Machine { cs: new_cs(setup), ev: (0..NE).map(|_| None).collect(), fv: (0..NF).map(|_| None).collect(), run, expect_unsat: None, bools: Vec::new(), steps_done: 0 }
+        Machine { cs: new_cs(setup), ev: (0..NE).map(|_| None).collect(), fv: (0..NF).map(|_| None).collect(), run, expect_unsat: None, bools: Vec::new(), steps_done: 0, suppress: std::cell::Cell::new(false) }
     }
 
     /// operand selection: the (i mod #set)-th register that holds a value, so that programs
@@ -226,7 +238,7 @@ impl Machine {
     }
 
     fn check_elem(&self, what: &str, var: &ElementVar, native: &AE, ctx: &mut Ctx) -> Result<(), Failure> {
-        if self.run != Run::Honest {
+        if self.run != Run::Honest || self.suppress.get() {
             return Ok(());
         }
         ctx.sub_eval();
@@ -243,7 +255,7 @@ impl Machine {
         Ok(())
     }
     fn check_fq(&self, what: &str, var: &FqVar, native: &Fq, ctx: &mut Ctx) -> Result<(), Failure> {
-        if self.run != Run::Honest {
+        if self.run != Run::Honest || self.suppress.get() {
             return Ok(());
         }
         ctx.sub_eval();
@@ -254,6 +266,9 @@ impl Machine {
         }
     }
     fn check_bool(&mut self, what: &str, var: Boolean<Fq>, native: bool, ctx: &mut Ctx) -> Result<(), Failure> {
+        if self.suppress.get() {
+            return Ok(());
+        }
         self.bools.push((what.to_string(), var.clone(), native));
         if self.run != Run::Honest {
             return Ok(());
@@ -270,10 +285,30 @@ impl Machine {
     pub fn step(&mut self, op: &GOp, ctx: &mut Ctx) -> Result<StepOut, Failure> {
         let name = op.name();
         let cs = self.cs.clone();
+        self.suppress.set(false);
+        // gadgets that legitimately do not force the decoding of a lazy operand
+        if let GOp::Compress { e, .. } | GOp::Realloc { a: e, .. } = op {
+            if self.run != Run::Shape && self.e(*e).map(|r| r.poisoned).unwrap_or(false) {
+                return Ok(StepOut::Skipped);
+            }
+        }
+        // scalar multiplication over zero bits never touches its base
+        if let GOp::ScalarMul { a, nbits: 0, .. } = op {
+            if self.run != Run::Shape && self.e(*a).map(|r| r.poisoned).unwrap_or(false) {
+                return Ok(StepOut::Skipped);
+            }
+        }
+        let mut poison_used = false;
         macro_rules! ereg {
             ($i:expr) => {
                 match self.e($i) {
-                    Some(r) => (r.var.clone(), r.native, r.is_const),
+                    Some(r) => {
+                        if r.poisoned {
+                            poison_used = true;
+                            self.suppress.set(true);
+                        }
+                        (r.var.clone(), r.native, r.is_const)
+                    }
                     None => return Ok(StepOut::Skipped),
                 }
             };
@@ -302,7 +337,7 @@ impl Machine {
                 }
                 .map_err(|e| synth(e, &name))?;
                 self.check_elem(&name, &var, &native, ctx)?;
-                self.ev[*dst as usize % NE] = Some(EReg { var, native, is_const: *mode == Mode::Constant });
+                self.ev[*dst as usize % NE] = Some(EReg { var, native, is_const: *mode == Mode::Constant, poisoned: false });
             }
             GOp::Realloc { dst, a, mode, via } => {
                 // a constant copied from a (witness-dependent) register value would make the circuit's
@@ -323,7 +358,24 @@ impl Machine {
                 }
                 .map_err(|e| synth(e, &name))?;
                 self.check_elem(&name, &var, &native, ctx)?;
-                self.ev[*dst as usize % NE] = Some(EReg { var, native, is_const: *mode == Mode::Constant });
+                self.ev[*dst as usize % NE] = Some(EReg { var, native, is_const: *mode == Mode::Constant, poisoned: false });
+            }
+            GOp::AllocLazy { dst, val, mode } => {
+                if *mode == Mode::Constant {
+                    return Ok(StepOut::Skipped);
+                }
+                let fv = fq_of(&val.0);
+                let nat = ark::Encoding(fv.to_bytes()).vartime_decompress();
+                let var = <ElementVar as AllocVar<Fq, Fq>>::new_variable(cs.clone(), || Ok(fv), mode.ark()).map_err(|e| synth(e, &name))?;
+                match nat {
+                    Ok(n) => self.ev[*dst as usize % NE] = Some(EReg { var, native: n, is_const: false, poisoned: false }),
+                    Err(_) => self.ev[*dst as usize % NE] = Some(EReg { var, native: AE::IDENTITY, is_const: false, poisoned: true }),
+                }
+            }
+            GOp::IsZero { a } => {
+                let (va, na, _) = ereg!(*a);
+                let out = va.is_zero().map_err(|e| synth(e, &name))?;
+                self.check_bool(&name, out, na.is_identity(), ctx)?;
             }
             GOp::AllocFq { dst, val, mode } => {
                 let native = fq_of(&val.0);
@@ -360,12 +412,12 @@ impl Machine {
                 match nat {
                     Ok(n) => {
                         self.check_elem(&name, &out, &n, ctx)?;
-                        self.ev[*dst as usize % NE] = Some(EReg { var: out, native: n, is_const: false });
+                        self.ev[*dst as usize % NE] = Some(EReg { var: out, native: n, is_const: false, poisoned: false });
                     }
                     Err(_) => {
                         // shape runs keep the register (with a placeholder native value) so that operand
                         // selection does not depend on the values
-                        self.ev[*dst as usize % NE] = if self.run == Run::Shape { Some(EReg { var: out, native: AE::IDENTITY, is_const: false }) } else { None };
+                        self.ev[*dst as usize % NE] = if self.run == Run::Shape { Some(EReg { var: out, native: AE::IDENTITY, is_const: false, poisoned: false }) } else { None };
                         native_fails = Some(format!("native decoding rejects {}", hex::encode(native.to_bytes())));
                     }
                 }
@@ -382,7 +434,7 @@ impl Machine {
                 };
                 let nat = AE::encode_to_curve(&native);
                 self.check_elem(&name, &out, &nat, ctx)?;
-                self.ev[*dst as usize % NE] = Some(EReg { var: out, native: nat, is_const: false });
+                self.ev[*dst as usize % NE] = Some(EReg { var: out, native: nat, is_const: false, poisoned: false });
             }
             GOp::Bin { dst, form, a, b } => {
                 let (va, na, ca) = ereg!(*a);
@@ -416,7 +468,7 @@ impl Machine {
                 self.check_elem(&name, &out, &nat, ctx)?;
                 let is_const = out.cs().is_none();
                 let _ = (ca, cb);
-                self.ev[*dst as usize % NE] = Some(EReg { var: out, native: nat, is_const });
+                self.ev[*dst as usize % NE] = Some(EReg { var: out, native: nat, is_const, poisoned: false });
             }
             GOp::BinConst { dst, form, a, c } => {
                 let (va, na, ca) = ereg!(*a);
@@ -438,7 +490,7 @@ impl Machine {
                 self.check_elem(&name, &out, &nat, ctx)?;
                 let is_const = out.cs().is_none();
                 let _ = ca;
-                self.ev[*dst as usize % NE] = Some(EReg { var: out, native: nat, is_const });
+                self.ev[*dst as usize % NE] = Some(EReg { var: out, native: nat, is_const, poisoned: false });
             }
             GOp::Negate { dst, a } => {
                 let (va, na, ca) = ereg!(*a);
@@ -447,7 +499,7 @@ impl Machine {
                 self.check_elem(&name, &out, &nat, ctx)?;
                 let is_const = out.cs().is_none();
                 let _ = ca;
-                self.ev[*dst as usize % NE] = Some(EReg { var: out, native: nat, is_const });
+                self.ev[*dst as usize % NE] = Some(EReg { var: out, native: nat, is_const, poisoned: false });
             }
             GOp::Double { dst, a } => {
                 let (va, na, ca) = ereg!(*a);
@@ -456,7 +508,7 @@ impl Machine {
                 self.check_elem(&name, &out, &nat, ctx)?;
                 let is_const = out.cs().is_none();
                 let _ = ca;
-                self.ev[*dst as usize % NE] = Some(EReg { var: out, native: nat, is_const });
+                self.ev[*dst as usize % NE] = Some(EReg { var: out, native: nat, is_const, poisoned: false });
             }
             GOp::DoubleInPlace { dst, a } => {
                 let (mut va, na, ca) = ereg!(*a);
@@ -465,7 +517,7 @@ impl Machine {
                 self.check_elem(&name, &va, &nat, ctx)?;
                 let is_const = va.cs().is_none();
                 let _ = ca;
-                self.ev[*dst as usize % NE] = Some(EReg { var: va, native: nat, is_const });
+                self.ev[*dst as usize % NE] = Some(EReg { var: va, native: nat, is_const, poisoned: false });
             }
             GOp::ScalarMul { dst, a, k, nbits, bits_const } => {
                 let (va, na, ca) = ereg!(*a);
@@ -486,7 +538,7 @@ impl Machine {
                 self.check_elem(&name, &out, &nat, ctx)?;
                 let is_const = out.cs().is_none();
                 let _ = ca;
-                self.ev[*dst as usize % NE] = Some(EReg { var: out, native: nat, is_const });
+                self.ev[*dst as usize % NE] = Some(EReg { var: out, native: nat, is_const, poisoned: false });
             }
             GOp::IsEq { a, b } | GOp::IsNeq { a, b } => {
                 let (va, na, _) = ereg!(*a);
@@ -529,7 +581,7 @@ impl Machine {
                 self.check_elem(&name, &out, &nat, ctx)?;
                 let is_const = out.cs().is_none();
                 let _ = (ca, cb);
-                self.ev[*dst as usize % NE] = Some(EReg { var: out, native: nat, is_const });
+                self.ev[*dst as usize % NE] = Some(EReg { var: out, native: nat, is_const, poisoned: false });
             }
             GOp::Isqrt { dst, f } => {
                 let (var, native, is_const) = freg!(*f);
@@ -589,8 +641,12 @@ impl Machine {
                     set[*a as usize % set.len()]
                 };
                 let r = self.ev[idx].as_ref().unwrap();
+                if r.poisoned {
+                    poison_used = true;
+                    self.suppress.set(true);
+                }
                 let v = catch_unwind(AssertUnwindSafe(|| r.var.value()));
-                if self.run == Run::Honest {
+                if self.run == Run::Honest && !poison_used {
                     match v {
                         Ok(Ok(got)) => {
                             if let Err(why) = elem_eq_exact(&got, &r.native) {
@@ -604,11 +660,29 @@ impl Machine {
             }
         }
         self.steps_done += 1;
+        if poison_used {
+            // whatever the gadget produced is derived from an undecodable encoding
+            if let GOp::Bin { dst, .. } | GOp::BinConst { dst, .. } | GOp::Negate { dst, .. } | GOp::Double { dst, .. } | GOp::DoubleInPlace { dst, .. } | GOp::ScalarMul { dst, .. } | GOp::CondSelect { dst, .. } = op {
+                if let Some(r) = self.ev[*dst as usize % NE].as_mut() {
+                    r.poisoned = true;
+                }
+            }
+            if native_fails.is_none() {
+                native_fails = Some("the gadget consumes a lazily allocated variable whose field value is not a valid encoding (native decoding fails)".to_string());
+            }
+        }
+        self.suppress.set(false);
         if let Some(why) = native_fails {
             self.expect_unsat = Some(why.clone());
             return Ok(StepOut::NativeFails(why));
         }
         Ok(StepOut::Done)
+    }
+
+    /// the step that just returned (possibly with an error) was consuming a poisoned register:
+    /// the honest prover has no witness there, a synthesis error is a rejection, not a defect
+    pub fn consuming_poison(&self) -> bool {
+        self.suppress.get()
     }
 
     pub fn satisfied(&self) -> bool {
@@ -621,7 +695,17 @@ pub fn run_honest(prog: &[GOp], ctx: &mut Ctx) -> Result<(), Failure> {
     let mut m = Machine::new(Run::Honest, false);
     for (i, op) in prog.iter().enumerate() {
         let name = op.name();
-        match m.step(op, ctx)? {
+        let out = match m.step(op, ctx) {
+            Ok(o) => o,
+            Err(f) if f.signature.ends_with("synthesis-error") && m.consuming_poison() => {
+                // witness generation failed on garbage decoded from an invalid encoding: rejected
+                ctx.class(&format!("gadget:{name}"));
+                ctx.class("native-fails=>unsat-expected");
+                return Ok(());
+            }
+            Err(f) => return Err(f),
+        };
+        match out {
             StepOut::Skipped => {
                 ctx.class(&format!("gadget-skipped:{name}"));
             }
@@ -679,6 +763,8 @@ pub fn gop() -> BoxedStrategy<GOp> {
         4 => (e(), recipe::recipe_small(), mode_any(), via()).prop_map(|(dst, src, mode, via)| GOp::AllocElem { dst, src, mode, via }),
         3 => (f(), fq_input(), mode_any()).prop_map(|(dst, val, mode)| GOp::AllocFq { dst, val, mode }),
         3 => (e(), e(), mode_any(), via()).prop_map(|(dst, a, mode, via)| GOp::Realloc { dst, a, mode, via }),
+        3 => (e(), fq_input(), mode_nc()).prop_map(|(dst, val, mode)| GOp::AllocLazy { dst, val, mode }),
+        1 => e().prop_map(|a| GOp::IsZero { a }),
         3 => (f(), e()).prop_map(|(dst, e)| GOp::Compress { dst, e }),
         3 => (e(), f()).prop_map(|(dst, f)| GOp::Decompress { dst, f }),
         2 => (e(), f()).prop_map(|(dst, f)| GOp::Elligator { dst, f }),
